@@ -22,6 +22,7 @@ def quiet_logging():
     logging.disable(logging.CRITICAL)
 
 
+ACTIVE_IDLE_DROPS = []  # connections closed with reason IDLE_DROP less than max_idle_ms after the client's last write to them
 CLOSE_REASONS = {}     # why the library closed its connections, counted over the whole shard (observation only)
 
 
@@ -35,13 +36,26 @@ def tap_connection_close():
         return
     orig = _conn.AIOKafkaConnection.close
 
+    import time as _time
+    orig_send = _conn.AIOKafkaConnection.send
+
+    def send(self, request, expect_response=True):
+        self._vf_last_write = _time.monotonic()
+        return orig_send(self, request, expect_response=expect_response)
+
     def close(self, reason=None, exc=None):
         if self._reader is not None:          # first close of a live connection
             k = getattr(reason, "name", None) or str(reason)
             CLOSE_REASONS[k] = CLOSE_REASONS.get(k, 0) + 1
+            lw = getattr(self, "_vf_last_write", None)
+            if k == "IDLE_DROP" and lw is not None and self._max_idle_ms is not None \
+                    and _time.monotonic() - lw < self._max_idle_ms / 1000.0 - 1e-6:
+                # closed as idle although the client itself wrote to it less than max_idle_ms ago
+                ACTIVE_IDLE_DROPS.append({"host": self._host, "t": _time.monotonic(), "since_last_write": _time.monotonic() - lw})
         return orig(self, reason=reason, exc=exc)
     close._vf_tapped = True
     _conn.AIOKafkaConnection.close = close
+    _conn.AIOKafkaConnection.send = send
 
 
 def make_cluster(seed, n_brokers=3, versions=None, lat=(0.0005, 0.004), fragment=True):
@@ -133,4 +147,6 @@ def idle_ms(P):
     v = P.get("connections_max_idle_ms")
     if v is not None:
         return v
-    return [540000, 540000, 540000, 1200, 3000][(P.get("seed", 0) // 7) % 5]
+    # (longer than the longest injected broker-side delay of 1.5 s: a request without reply (acks=0) that is still queued at
+    # the broker when the client legitimately drops the idle connection has no ordering guarantee against the next connection)
+    return [540000, 540000, 540000, 2000, 4000][(P.get("seed", 0) // 7) % 5]
